@@ -10,3 +10,4 @@ from . import assembly_sort  # noqa: F401
 from . import cli_files  # noqa: F401
 from . import build_assembly  # noqa: F401
 from . import build_utils  # noqa: F401
+from . import parser  # noqa: F401
